@@ -282,7 +282,7 @@ Section KeyMatch.
     probe_la la k = LaVal lav -> lookup k ak = Some v -> shape_ok v = true ->
     list_to_object tv fields = Ret T -> list_to_object v fields = Ret A ->
     key_match rec sk lk cfg ak la k tv =
-      match list_to_object lav fields with
+      match list_to_object (la_items lav) fields with
       | Ret L => rec T A L false
       | c => outs_of_fail c
       end.
@@ -645,7 +645,7 @@ Proof.
     + destruct (shape_ok v') eqn:Shv'.
       * rewrite (key_match_as_map _ _ _ _ (set_key k v' ak) _ _ _ v' _ _ _ _ Sp C P
                    (v_lookup_set_key_eq _ _ _) Shv' LT LA').
-        destruct (list_to_object lav fields) as [L| |]; try onomatch Km.
+        destruct (list_to_object (la_items lav) fields) as [L| |]; try onomatch Km.
         apply IH; auto. eapply wf_list_to_object; eauto. eapply Wv. apply v_lookup_In. eauto.
       * eapply key_match_as_map_bad; eauto. apply v_lookup_set_key_eq.
   - (* a compare-as-map value that is no longer a list of maps *)
@@ -910,7 +910,7 @@ Section DropLa.
           destruct (list_to_object tv fields) as [T| |]; try onomatch H.
           destruct (list_to_object v fields) as [A| |]; try onomatch H.
           cbn [read_la] in H |- *. rewrite l2o_null.
-          destruct (list_to_object lav fields) as [L| |]; try onomatch H.
+          destruct (list_to_object (la_items lav) fields) as [L| |]; try onomatch H.
           eapply Hdrop; eauto.
         * cbn [read_la] in H |- *. eapply Hdrop; eauto.
     - (* the probe would raise on read: it was never read, or it raised *)
@@ -1116,7 +1116,7 @@ Proof.
       * rewrite (key_match_as_map _ _ _ _ (set_key k v' ak) _ _ _ v' _ _ _ _ Sp C (probe_null k)
                    (v_lookup_set_key_eq _ _ _) Shv' LT LA').
         rewrite l2o_null.
-        destruct (list_to_object lav fields) as [L| |]; try onomatch Km.
+        destruct (list_to_object (la_items lav) fields) as [L| |]; try onomatch Km.
         eapply IH; eauto. eapply wf_list_to_object; eauto. eapply Wv. apply v_lookup_In. eauto.
       * eapply key_match_as_map_bad; eauto. apply probe_null. apply v_lookup_set_key_eq.
   - (* a compare-as-map value that is no longer a list of maps *)
@@ -1293,4 +1293,84 @@ Proof.
     apply dev_map_retyped. discriminate. }
   split; [vm_compute; reflexivity|]. split; [vm_compute; reflexivity|].
   eexists. split; [vm_compute; reflexivity|]. split; vm_compute; reflexivity.
+Qed.
+
+(* ------------------------------------------------------------------ *)
+(* C05: a last-applied document recorded for a differently shaped       *)
+(* target (58b6399, 34ca0d2) is absent, never an exception              *)
+(* ------------------------------------------------------------------ *)
+
+Lemma probe_la_total la k : exists v, probe_la la k = LaVal v.
+Proof. unfold probe_la. destruct la; eauto. Qed.
+
+Lemma probe_la_nonmap la k : (forall m, la <> JMap m) -> probe_la la k = LaVal JNull.
+Proof. intros N. destruct la; try reflexivity. exfalso. eapply N; eauto. Qed.
+
+Lemma key_match_la_probe rec sk lk cfg ak la la' k tv :
+  probe_la la k = probe_la la' k ->
+  key_match rec sk lk cfg ak la k tv = key_match rec sk lk cfg ak la' k tv.
+Proof. intros E. unfold key_match. rewrite E. reflexivity. Qed.
+
+Lemma keys_loop_la_probe rec sk lk cfg ak la la' l :
+  (forall k, probe_la la k = probe_la la' k) ->
+  keys_loop rec sk lk cfg ak la l = keys_loop rec sk lk cfg ak la' l.
+Proof.
+  intros E. induction l as [|[k tv] r IH]; cbn; auto.
+  rewrite IH, (key_match_la_probe rec sk lk cfg ak la la' k tv (E k)). reflexivity.
+Qed.
+
+(* where the target has a map, a recorded value that is not a map counts as absent *)
+Lemma la_not_map_is_absent n tk a la s :
+  (forall m, la <> JMap m) -> vmatch_f n (JMap tk) a la s = vmatch_f n (JMap tk) a JNull s.
+Proof.
+  intros N. destruct a; destruct n; try reflexivity.
+  rewrite !vmatch_map_unfold. unfold dict_match.
+  destruct (key_set (lookup K_SET tk)); auto.
+  destruct (key_set (lookup K_LA tk)); auto.
+  destruct (map_cfg (lookup K_MAP tk)); auto.
+  apply keys_loop_la_probe. intros k. rewrite probe_la_nonmap by exact N. reflexivity.
+Qed.
+
+(* where the target has a list, a recorded value that is not a list counts as absent *)
+Lemma la_not_list_is_absent n tl a la s :
+  (forall l, la <> JList l) -> vmatch_f n (JList tl) a la s = vmatch_f n (JList tl) a JNull s.
+Proof.
+  intros N. destruct a; destruct n; try reflexivity; destruct s; try reflexivity.
+  rewrite !vmatch_list_unfold. unfold list_match.
+  destruct tl, l; auto; destruct (negb (Nat.eqb _ _)); auto;
+    destruct la; auto; exfalso; eapply N; eauto.
+Qed.
+
+(* drift is detected whatever kind of value was recorded where the target has a map / a list *)
+Theorem drift_detected_ill_shaped_la t s p l l' la la' :
+  wf t = true -> vmatch t l la s = O_match -> deviates t s p l l' ->
+  (match t with
+   | JMap _ => forall m, la' <> JMap m
+   | JList _ => forall x, la' <> JList x
+   | _ => True
+   end) ->
+  vmatch t l' (Some la') s = O_false.
+Proof.
+  intros W H D N. pose proof (drift_detected_drop_thm t s p l l' la W H D) as R.
+  unfold vmatch in *. cbn [la_arg] in *.
+  destruct t;
+    try (rewrite (vmatch_la_irrelevant _ _ l' la' JNull s);
+         [exact R | intros ? ? [E _]; discriminate E | intros ? ? [E _]; discriminate E]).
+  - rewrite la_not_list_is_absent by exact N. exact R.
+  - rewrite la_not_map_is_absent by exact N. exact R.
+Qed.
+
+(* the reproducers of the two repairs *)
+Lemma la_shape_examples :
+  vmatch (JMap [("spec", JMap [("a", JInt 1)])]) (JMap [("spec", JMap [("a", JInt 2)])])
+         (Some (JMap [("spec", JList [JMap []])])) false = O_false /\
+  vmatch (JMap [("spec", JList [JInt 1; JInt 2])]) (JMap [("spec", JList [JInt 1; JInt 2])])
+         (Some (JMap [("spec", JMap [("0", JInt 1)])])) false = O_match /\
+  (forall la, In la [JStr "str"; JList [JInt 1]; JMap [("name", JStr "a")]; JList [JList [JStr "x"]]; JInt 5; JBool true] ->
+     vmatch wb_target (JMap [("m", JList [JMap [("name", JStr "a")]])]) (Some (JMap [("m", la)])) false = O_match /\
+     vmatch wb_target (JMap [("m", JList [JMap [("name", JStr "b")]])]) (Some (JMap [("m", la)])) false = O_false).
+Proof.
+  split; [vm_compute; reflexivity|]. split; [vm_compute; reflexivity|].
+  intros la I. cbn in I.
+  repeat (destruct I as [I|I]; [subst la; split; vm_compute; reflexivity|]). destruct I.
 Qed.
